@@ -205,6 +205,10 @@ def _coord_check(ctx, fn, region, rows_sym, cols_sym, label):
 
 def r3_labels(ctx):
     """The time label of a step's slice is detector.absolute_time read in the same call; every container's to_xarray labels rows with range(num_rows) on 'y' and columns with range(num_cols) on 'x'."""
+    # the label is the absolute time itself: start_time + time, not a rounded / quantised value (C02.R6)
+    from props.C02 import r6_clock_algebra
+
+    r6_clock_algebra(ctx)
     f = ctx.func(EXT)
     det = f.params[0]
     rets = [r for r in returns_of(f) if r.value is not None]
